@@ -7,6 +7,8 @@ import GT.Base.JsonQ
 import GT.Base.QSqrt
 import GT.Model.Lie
 import GT.Driver.C16
+import GT.Driver.C04
+import GT.Model.LieND
 import Mathlib.Algebra.Order.Field.Rat
 import Mathlib.Algebra.Order.Ring.Abs
 open Lean GT.J GT GT.Lie
@@ -117,6 +119,17 @@ def pglOp (j : Json) : R Json := do
   needSq |Ad 2 2|
   return Json.mkObj [("A", ofMat (oToPgl rsqrt S)), ("pinned", ofMat (oToPglPinned rsqrt S)), ("Ad", ofMat Ad)]
 
+/-- the array-level (`ND`) models of the vectorised code paths: `{"shape":[...], "data":[...]}` in and out -/
+def irrepNdOp (j : Json) : R Json := do
+  let A ← GT.Driver.C04.ndf j "A"
+  return GT.Driver.C04.ofND (GT.Lie.Arr.sl2IrrepND (← natf j "n") A)
+
+def so21NdOp (j : Json) : R Json := do
+  GT.Driver.C04.liftE (GT.Lie.Arr.sl2ToSo21ND (← GT.Driver.C04.ndf j "A"))
+
+def glnNdOp (j : Json) : R Json := do
+  GT.Driver.C04.liftE (GT.Lie.Arr.glnAdjointND (← natf j "n") (← GT.Driver.C04.ndf j "A") (← GT.Driver.C04.ndf j "Ai"))
+
 def byField (hq : Handler) (hqi : Handler) : Handler := fun j => do
   match (← strf j "field") with
   | "Q" => hq j
@@ -132,5 +145,6 @@ def ops : List (String × Handler) :=
    ("c17.realify", realifyOp),
    ("c17.so21", so21Op),
    ("c17.so31", so31Op),
-   ("c17.o_to_pgl", pglOp)]
+   ("c17.o_to_pgl", pglOp),
+   ("c17.irrep_nd", irrepNdOp), ("c17.so21_nd", so21NdOp), ("c17.gln_nd", glnNdOp)]
 end GT.Driver.C17
